@@ -758,6 +758,10 @@ pub struct AuthEngine;
 
 impl Engine for AuthEngine {
     type Case = AuthCase;
+    fn hang_limit_secs(&self) -> u64 {
+        // cases of this engine take milliseconds
+        90
+    }
     fn property(&self) -> &str {
         "C20"
     }
